@@ -1,5 +1,5 @@
 """C01 - TCP payload is delivered complete, in order and exactly once, both directions"""
-from .. import conn_oracle
+from .. import conn_oracle, server_free
 from ..conn_common import ConnProp
 from ._conn_texts import ASSUME, TRUSTED
 
@@ -21,16 +21,31 @@ class Prop(ConnProp):
                   "evaluated on what a raw (non-muduo) peer received")
     level_note = ("Proof is about the model; tie = T1 extraction + differential testing (bounded by the generator). Progress "
                   "(the backlog eventually drains) is stated step-wise only; delivery by the kernel is assumed. 0..N io threads: "
-                  "single loop here; cross-thread sends are executed by a real second thread that is joined before the next step.")
+                  "single loop here; cross-thread sends are executed by a real second thread that is joined before the next step. "
+                  "TcpServer/Acceptor/EventLoopThreadPool are outside the model: they are exercised only by free-running "
+                  "scenarios around the real TcpServer (N = 0..3 io threads, raw-socket peers, both stream directions checked by "
+                  "an oracle on the recorded trace only) - supporting evidence and failing-input search, not proof.")
     rule = ("histories of <= 40 operations on one connection: send (3 overloads, sizes from a boundary alphabet 0..65537 and up to "
             "300000, from the loop thread, a second thread, or inside a callback), scripted write results (full/short k/EAGAIN/"
             "EINTR/EPIPE/ECONNRESET), scripted short reads, peer writes, stop/startRead, shutdown, forceClose(WithDelay), peer "
             "close, owner destruction, clock advances, loop iterations; flavours asserts-on/NDEBUG x epoll/poll; non-trivial = "
-            "at least one callback ran; distinct = distinct observation traces")
+            "at least one callback ran; distinct = distinct observation traces. Plus free-running TcpServer scenarios "
+            "(vlib/server_free.py: N in 0..3 io threads, 127.0.0.1 / ::1 / a long v4-mapped IPv6 listen address, kernel-chosen port, "
+            "epoll/poll, 1..12 concurrent raw-socket peers, block sizes 0..200000, echo + server-initiated blocks from the io "
+            "thread and two foreign threads through the three send overloads, small SO_RCVBUF/slow readers, every close cause incl. "
+            "~TcpServer with live connections), oracle only")
     trusted_base = TRUSTED
     assumptions = ASSUME
     oracles = [conn_oracle.stream_oracle, conn_oracle.read_oracle]
     profile = {"closes": True}
+
+    def correspondence(self, ctx, replay=None):
+        # a replay whose first line is `engine=server ...` is a free-running TcpServer scenario
+        if replay and server_free.is_server_replay(replay):
+            return server_free.replay(ctx, self.id, replay)
+        ConnProp.correspondence(self, ctx, replay)
+        if not replay and not ctx.stop():
+            server_free.explore(ctx, self.id)
 
 
 PROP = Prop()
